@@ -14,29 +14,23 @@ Definition wit_payload (id : N) : option bytes :=
 Definition ok_payload (id : N) : option bytes :=
   match ok_vspec with Ok v => payload_of_id v ok_ops id | _ => None end.
 
-(* the witness of the slot-placement defect *)
-Lemma slot_refuted_wit :
+(* the dataset that used to witness the slot-placement defect (3x4x2 grid,
+   m = 2, s = 2, p = 0: shards 2 and 3 use minishards {0, 2}): with the shard
+   index padded up to each minishard's own slot the specification reader finds
+   chunk 10 at slot 2, every file satisfies WF, and both readers return all
+   24 stored payloads *)
+Lemma old_witness_reads :
   used_minishards_prefix 2 2 0 wit_ids = false /\
   all_ok (fst wit_session) = true /\
   length wit_ids = 24%nat /\
   wit_payload 10 = Some [9; 9; 9] /\
-  spec_fetch 2 2 0 raw_sdec raw_sdec wit_files 10 = SAbsent /\
-  scale_fetch wit_sp raw_dec raw_dec (dir_of 2 wit_files) 10 = Ok [9; 9; 9] /\
-  shard_prefix_ok 2 2 0 wit_ids (spec_shard 0 2 2 10) = false /\
-  map (fun nf => wf_slot (wf_file 2 2 0 raw_sdec (fst nf) (snd nf))) wit_files
-    = [true; true; false; false].
-Proof. vm_compute. repeat split; reflexivity. Qed.
-
-(* in the same dataset every chunk whose shard uses an initial segment of
-   minishards is found by the specification reader, and the package reader
-   finds all 24 *)
-Lemma wit_other_chunks :
-  forallb (fun id => negb (shard_prefix_ok 2 2 0 wit_ids (spec_shard 0 2 2 id)) ||
-                     spec_result_eqb (spec_fetch 2 2 0 raw_sdec raw_sdec wit_files id) (wit_payload id))
+  spec_fetch 2 2 0 raw_sdec raw_sdec wit_files 10 = SFound [9; 9; 9] /\
+  forallb (fun nf => wf_all (wf_file 2 2 0 raw_sdec (fst nf) (snd nf))) wit_files = true /\
+  forallb (fun id => spec_result_eqb (spec_fetch 2 2 0 raw_sdec raw_sdec wit_files id) (wit_payload id))
           wit_ids = true /\
   forallb (fun id => outcome_eqb (scale_fetch wit_sp raw_dec raw_dec (dir_of 2 wit_files) id) (wit_payload id))
           wit_ids = true.
-Proof. vm_compute. split; reflexivity. Qed.
+Proof. vm_compute. repeat split; reflexivity. Qed.
 
 (* same chunk set, reversed store order: byte-identical files *)
 Lemma wit_order_instance : snd wit_session = snd wit_session_rev.
